@@ -103,7 +103,9 @@ def cmd_detect(sid, props, tier="quick", quiet=False):
     d = os.path.join(SEEDED, sid)
     meta = json.load(open(os.path.join(d, "meta.json")))
     if not props:
-        props = [meta.get("property", sid.split("-")[0])]
+        # detect_with: the change is filed under one property but is, by its nature, a violation of
+        # another one's quantifier (e.g. a thread race filed under a sequential property)
+        props = meta.get("detect_with") or [meta.get("property", sid.split("-")[0])]
     out = {}
     with Scratch(os.path.join(d, "patch.diff")) as s:
         for p in props:
@@ -133,12 +135,19 @@ def cmd_matrix(tier):
     for sid in sorted(os.listdir(SEEDED)):
         if not os.path.exists(os.path.join(SEEDED, sid, "patch.diff")):
             continue
+        st = json.load(open(os.path.join(SEEDED, sid, "meta.json"))).get("status")
+        if st in ("neutralised", "out-of-scope"):
+            print("%-28s skipped (%s)" % (sid, st))
+            continue
         out = cmd_detect(sid, [], tier, quiet=True)
         for p, v in out.items():
             rows.append((sid, p, v["exit"], v["violations"], v["wall_s"]))
             print("%-28s %s exit=%d violations=%d %.0fs" % rows[-1])
-    missed = [r for r in rows if r[2] != 1]
-    print("%d seeded changes, %d detected, %d missed" % (len(rows), len(rows) - len(missed), len(missed)))
+    by_id = {}
+    for r in rows:
+        by_id.setdefault(r[0], []).append(r)
+    missed = [rs[0] for rs in by_id.values() if not any(r[2] == 1 for r in rs)]
+    print("%d seeded changes checked, %d detected, %d missed" % (len(by_id), len(by_id) - len(missed), len(missed)))
     for r in missed:
         print("  MISSED", r[0])
 
